@@ -227,7 +227,7 @@ func (mc *modelCase) compare(c *fw.Case, m *refmodel.Model, rs *jsonschema.Resol
 	} else {
 		c.Count("verdict_invalid", 1)
 	}
-	if c.Idx%7 == 0 {
+	if c.Idx%7 == 0 && !mc.pythonDiffersByDesign() {
 		rec := map[string]any{"schema": json.RawMessage(mc.rootText), "instance": json.RawMessage(itext), "model_valid": want, "draft": map[refmodel.Draft]string{refmodel.D2020: "2020-12", refmodel.D7: "draft-07"}[mc.draft]}
 		if mc.baseURI != "" {
 			rec["base_uri"] = mc.baseURI
@@ -310,4 +310,38 @@ func keywordCoverage(a *fw.Agg, draft7 bool) {
 	if possible > 0 && float64(possible-seen)/float64(possible) > 0.05 {
 		a.AddInconclusive(fmt.Sprintf("%d of %d same-group keyword pairs were never observed together with the second one deciding", possible-seen, possible))
 	}
+}
+
+// pythonDiffersByDesign reports input classes on which the second oracle (python jsonschema) is known to deviate from the
+// draft text, so that samples of them are not sent to the audit: under draft-07 python registers the plain-name anchor of a
+// fragment-only $id even when it sits beside $ref, where "all other properties MUST be ignored" (the package and the
+// reference model ignore it).
+func (mc *modelCase) pythonDiffersByDesign() bool {
+	if mc.draft != refmodel.D7 {
+		return false
+	}
+	found := false
+	var walk func(v any)
+	walk = func(v any) {
+		switch x := v.(type) {
+		case map[string]any:
+			if _, hasRef := x["$ref"]; hasRef {
+				if id, ok := x["$id"].(string); ok && strings.HasPrefix(id, "#") {
+					found = true
+				}
+			}
+			for _, e := range x {
+				walk(e)
+			}
+		case []any:
+			for _, e := range x {
+				walk(e)
+			}
+		}
+	}
+	walk(gen.Parse(mc.rootText))
+	for _, d := range mc.docs {
+		walk(gen.Parse(d))
+	}
+	return found
 }
